@@ -7,8 +7,13 @@ pub fn make_case(prop: &str, seed: u64, run: u64, stats: &mut Stats) -> Option<C
     match prop {
         "C16" | "C17" | "C18" | "C20" => runner::make_case(prop, seed, run, stats),
         "C19" => crate::c19::make_case(seed, run, stats),
+        "C15" => crate::c15::make_case(seed, run, thorough(), stats),
         _ => None,
     }
+}
+
+pub fn thorough() -> bool {
+    std::env::var("VERIF_TIER").map(|t| t == "thorough").unwrap_or(false)
 }
 
 pub fn execute(case: &Case) -> Exec {
